@@ -102,8 +102,10 @@ type hist struct {
 	seriesPlaceBefore string
 	nestDropBudget    int
 
-	vol              *volState // TestVolumeHistory only (volume_test.go)
-	allShardsInCycle bool      // the next flush cycle names every shard
+	vol              *volState   // TestVolumeHistory only (volume_test.go)
+	flt              *faultState // TestFaultHistory only (fault_test.go): I/O faults inside Flush calls
+	group            string      // evidence group of the case ("TestHistory" / "TestFaultHistory")
+	allShardsInCycle bool        // the next flush cycle names every shard
 }
 
 func (h *hist) logf(format string, args ...any) {
@@ -164,6 +166,9 @@ func (h *hist) drawRow(label string) rowSpec {
 			seen[f] = true
 			r.Fields = append(r.Fields, f)
 		}
+	}
+	if h.flt != nil {
+		h.faultRowExtras(label, &r) // fault_test.go: more new fields / tag keys per flush cycle
 	}
 	return r
 }
@@ -346,6 +351,11 @@ func (h *hist) flushStep() {
 	case phMetaPrepared:
 		h.logf("metadata Flush")
 		h.runFlush("meta", h.n.meta.Flush)
+		if h.flushFailed("meta") {
+			// dataFlushChecker.doFlush: a failed FlushMeta ends the flush job, no shard is flushed
+			h.phase, h.pending = phIdle, nil
+			return
+		}
 		h.dur.Meta = h.metaPrepSeq
 		h.flushed(-1, h.metaPrepSeq)
 		h.classes["meta-flush"]++
@@ -381,6 +391,15 @@ func (h *hist) flushStep() {
 	case phIdxPrepared:
 		h.logf("index %d Flush", h.cur)
 		h.runFlush(fmt.Sprintf("idx%d", h.cur), h.n.idx[h.cur].Flush)
+		if h.flushFailed(fmt.Sprintf("idx%d", h.cur)) {
+			// dataFlushChecker.flushShard: a failed FlushIndex ends the work on this shard, the job goes
+			// on with the next shard
+			h.phase = phMetaFlushed
+			if len(h.pending) == 0 {
+				h.phase = phIdle
+			}
+			return
+		}
 		h.dur.Idx[h.cur] = h.idxPrepSeq[h.cur]
 		h.flushed(h.cur, h.idxPrepSeq[h.cur])
 		h.classes["index-flush"]++
@@ -410,11 +429,15 @@ func (h *hist) runFlush(what string, fn func() error) {
 	if what == "meta" {
 		h.idsSinceSync = 0 // Flush starts with the sequence sync
 	}
+	h.armFault(what) // fault_test.go; no-op unless the case injects I/O faults
 	h.im.Begin(len(h.ops)-1, strings.ReplaceAll(h.inFlushName(), " ", ""))
 	err := fn()
 	h.im.End()
 	name := h.inFlushName()
 	h.inFlush = ""
+	if h.faultOutcome(what, err) {
+		return // the Flush reported an injected I/O fault: flushStep goes on as the flush job does
+	}
 	if err != nil {
 		h.fatalf("%s failed: %v", name, err)
 	}
@@ -426,6 +449,9 @@ func (h *hist) runFlush(what string, fn func() error) {
 func (h *hist) wantImage(p crash.Point) bool {
 	first := h.pointsInFlush == 0
 	h.pointsInFlush++
+	if h.faultSuppressImage() {
+		return false
+	}
 	if p.Before && !first {
 		return false
 	}
@@ -454,6 +480,7 @@ func (h *hist) onPoint(p crash.Point) {
 		if h.idsSinceSync > 0 {
 			h.classes["image-with-ids-after-sync"]++
 		}
+		h.faultImageTaken(p)
 	}
 	if h.nestBudget > 0 && rapid.IntRange(0, 7).Draw(h.t, "nestHere") == 0 {
 		h.nestBudget--
@@ -504,6 +531,7 @@ func (h *hist) reopen() {
 	}
 	h.dur = all
 	h.reopened()
+	h.faultReopened()
 	rm, err := checkRecovered(h.n, h.w, h.m, all, func(s string) { h.classes[s]++ })
 	if err != nil {
 		h.fatalf("after reopen: %v", err)
@@ -564,6 +592,7 @@ func (h *hist) recoverImage(p crash.Point) {
 	}
 	h.imagesChecked++
 	h.imagesInsideFlush++
+	h.faultImageRecovered(p)
 	h.classes["img-"+p.OpName]++
 	h.ntHashes = append(h.ntHashes, p.String())
 }
@@ -1055,7 +1084,12 @@ func seriesIDs(byID map[uint32]*seriesM) []uint32 {
 
 // ---- property --------------------------------------------------------------------------------
 
-func runHistory(t *rapid.T, thorough bool) {
+func runHistory(t *rapid.T, thorough bool) { runHistoryOpts(t, thorough, false) }
+
+// runHistoryOpts: faults=true is TestFaultHistory (fault_test.go) - the same state machine, and in
+// addition one intercepted table-file / manifest operation of a Flush call may fail (injected I/O
+// fault); the harness then goes on as the production flush job does.
+func runHistoryOpts(t *rapid.T, thorough, faults bool) {
 	dir := mustTempDir("c09h-")
 	nIdx := rapid.IntRange(1, 3).Draw(t, "nIdx")
 	h := &hist{
@@ -1063,6 +1097,11 @@ func runHistory(t *rapid.T, thorough bool) {
 		idxPrepSeq: make([]int, nIdx), dur: durable{Idx: make([]int, nIdx)},
 		imgDur: map[int]durable{}, classes: map[string]int{},
 		cs: newCompactState(nIdx), switched: map[string]bool{}, seqCached: map[seqKey]bool{},
+		group: "TestHistory",
+	}
+	if faults {
+		h.group = "TestFaultHistory"
+		h.flt = newFaultState(t)
 	}
 	h.u = drawUniverse(t)
 	defer debug.SetPanicOnFault(debug.SetPanicOnFault(true))
@@ -1072,6 +1111,10 @@ func runHistory(t *rapid.T, thorough bool) {
 	kv.VerifSetFSHook(h.im.Hook)
 	version.VerifSetFSHook(version.VerifFSHook(h.im.Hook))
 	table.VerifSetFSHook(table.VerifFSHook(h.im.Hook))
+	if faults {
+		version.VerifSetFSHookWithSyncFaults(version.VerifFSHook(h.im.Hook), h.faultFn)
+		table.VerifSetFSHookWithFaults(table.VerifFSHook(h.im.Hook), h.faultFn)
+	}
 	defer func() {
 		kv.VerifSetFSHook(nil)
 		version.VerifSetFSHook(nil)
@@ -1092,7 +1135,7 @@ func runHistory(t *rapid.T, thorough bool) {
 	step := func(fn func()) func(*rapid.T) {
 		return func(t *rapid.T) { h.t = t; h.guarded(fn) }
 	}
-	t.Repeat(map[string]func(*rapid.T){
+	actions := map[string]func(*rapid.T){
 		"write":      step(func() { h.write("") }),
 		"write2":     step(func() { h.write("") }),
 		"query":      step(func() { h.query("") }),
@@ -1133,8 +1176,13 @@ func runHistory(t *rapid.T, thorough bool) {
 			if len(h.switched) > 0 {
 				h.classes["live-oracle-runs-on-compacted-dictionaries"]++
 			}
+			h.faultLiveChecked()
 		}),
-	})
+	}
+	if faults {
+		h.faultActions(actions, step)
+	}
+	t.Repeat(actions)
 	h.t = t
 	h.guarded(func() {
 		h.crashCheck()
@@ -1145,14 +1193,20 @@ func runHistory(t *rapid.T, thorough bool) {
 	})
 
 	canon := fmt.Sprintf("%d|%s|%s|%v", nIdx, h.w.mode, h.u, h.ops)
+	if faults {
+		canon = "faults|" + canon
+	}
 	h.classes["wire-"+h.w.mode] = 1
 	h.classes["wire-calls-with-reused-arguments"] = h.w.calls + h.w.rows
 	h.classes["wire-bytes-overwritten-after-return"] = h.w.overwritten
 	for c, n := range h.classes {
-		ev.Class("TestHistory", c, n)
+		ev.Class(h.group, c, n)
 	}
 	nt := h.classes["image-with-ids-after-sync"] > 0 && h.imagesChecked > 0
-	ev.Case("TestHistory", canon, nt, nil, map[string]any{
+	if faults {
+		nt = h.recordFaults(canon) // fault_test.go: the rule of TestFaultHistory
+	}
+	ev.Case(h.group, canon, nt, nil, map[string]any{
 		"index_databases": nIdx, "wire_mode": h.w.mode, "names": h.u.String(), "history": h.ops, "images_recovered": h.imagesChecked,
 	})
 	for _, hs := range h.ntHashes {
